@@ -763,7 +763,8 @@ fn main() {
     let entry_fns: Vec<(&str, &str, &str)> = vec![
         ("addrSend", "Addr", "send"), ("addrCall", "Addr", "call"), ("addrSender", "Addr", "sender"),
         ("addrWeakSender", "Addr", "weak_sender"), ("addrCaller", "Addr", "caller"),
-        ("addrWeakCaller", "Addr", "weak_caller"), ("ctxWeakSender", "Context", "weak_sender"),
+        ("addrWeakCaller", "Addr", "weak_caller"), ("owningSend", "OwningAddr", "send"),
+        ("owningCall", "OwningAddr", "call"), ("ctxWeakSender", "Context", "weak_sender"),
         ("ctxWeakCaller", "Context", "weak_caller"), ("ctxInterval", "Context", "interval"),
         ("ctxIntervalWith", "Context", "interval_with"), ("ctxDelayedSend", "Context", "delayed_send"),
         ("ctxRegisterChild", "Context", "register_child"), ("ctxSendToChildren", "Context", "send_to_children"),
@@ -772,6 +773,7 @@ fn main() {
         ("addrRestart", "Addr", "restart"), ("ctxRestart", "Context", "restart"),
         ("withStream", "ActorBuilderWithChannel", "with_stream"),
         ("recreateFromDefault", "ActorBuilderWithChannel", "recreate_from_default"),
+        ("builderOnStream", "BaseActorBuilder", "on_stream"), ("builderBoundedOnStream", "BaseActorBuilder", "bounded_on_stream"),
     ];
     let mut bounds_lean = String::from("import Hannibal.Model.Types\n/- GENERATED by /verif/extract from /repo's working tree on every check run. Do not edit. -/\nnamespace Hannibal\n\ndef Bounds.current : ApiEntry → List Bound\n");
     for (name, ty, fnn) in &entry_fns {
